@@ -343,6 +343,23 @@ ExpressionEvaluator::evaluate_typed_expression_internal(const ASTNode *node) {
                                                            inferred_type);
     }
 
+    // An enum constructor used as a value (assigned, passed as an argument)
+    // is the enum value itself, not just its payload. A unit variant is one
+    // too when its enum has payload variants; members of plain C-style enums
+    // stay integers.
+    case ASTNodeType::AST_ENUM_CONSTRUCT:
+    case ASTNodeType::AST_ENUM_ACCESS: {
+        if (node->node_type == ASTNodeType::AST_ENUM_CONSTRUCT ||
+            interpreter_.get_enum_manager()->has_associated_values(
+                node->enum_name)) {
+            return TypedValue(
+                SpecialAccessHelpers::make_enum_value(node, interpreter_),
+                InferredType(TYPE_ENUM, node->enum_name));
+        }
+        int64_t numeric_result = evaluate_expression(node);
+        return consume_numeric_typed_value(node, numeric_result, inferred_type);
+    }
+
     // ========================================================================
     // 無名変数（DISCARD_VARIABLE）v0.10.0新機能
     // 無名変数の参照は許可されない
